@@ -768,4 +768,4 @@ def run(options: 'Arguments') -> int:
         m = 'Please check logs above as command failed in some subprojects which could have been left in conflict state: '
         m += ', '.join(failures)
         mlog.warning(m)
-    return len(failures)
+    return 1 if failures else 0
